@@ -46,7 +46,10 @@ ALL = IMPLEMENTED + ["SCRAM-SHA-1", "GSSAPI", "PLAIN-CLIENTTOKEN", "XLOGIN", "X-
                      "OAUTHBEARER-X", "DIGEST-MD5-SESS", "LOGIN2"]
 LOGINS = ["user", "user@example.com", "üser", "a,b", "a=b", 'q"q', "with space", "x" * 80,
           "名前", "back\\slash", "=2C", "u,=v"]
-PASSWORDS = ["secret", "pässwörd €", "p,w=d", 'p"w', "", " lead", "y" * 120, "tok.en-123_~+/="]
+PASSWORDS = ["secret", "pässwörd €", "p,w=d", 'p"w', "", " lead", "y" * 120, "tok.en-123_~+/=",
+             # secrets that look like the wire syntax they are embedded in
+             "Bearer abc", "Bearer ", "bearer x", "auth=Bearer x", "Basic dTpw", "n,a=x,",
+             "dTpw", "=", "host=h", "Username:", "{5}", '"quoted"']
 AUTHZ = ["", "", "admin", "ädmin", "a,b=c"]
 
 
@@ -116,14 +119,20 @@ def run_shard(tier, shard, res: Result):
                             faults=faults, starttls=True, digest_realm=realm,
                             encodings=rng.choice(["quoted", "literal", "mixed"]))
             sess = mslab.Session(srv)
-            out = sess.call("connect", login, pw, authz_id=authz, authmech=authmech,
-                            starttls=True)
+            if i % 2:
+                out = sess.call("connect", login, pw, authz, True, authmech)
+            else:
+                out = sess.call("connect", login, pw, authz_id=authz, authmech=authmech,
+                                starttls=True)
         else:
             srv = ms.Server(users=users, sasl=announced, faults=faults, starttls=False,
                             digest_realm=realm,
                             encodings=rng.choice(["quoted", "literal", "mixed"]))
             sess = mslab.Session(srv)
-            out = sess.call("connect", login, pw, authz_id=authz, authmech=authmech)
+            if i % 2:
+                out = sess.call("connect", login, pw, authz, False, authmech)
+            else:
+                out = sess.call("connect", login, pw, authz_id=authz, authmech=authmech)
         want = expected_mech(announced, authmech)
         res.count("connects")
         res.count("mech:%s" % want if want else "no-mechanism")
